@@ -150,6 +150,27 @@ def make_impl(base_cls, methods, bpk: BP, b: Build, rng_seed: int):
     return type("Recording" + base_cls.__name__, (base_cls,), ns)
 
 
+def _method_name(stub, base, proto_name, handler):
+    """python name of the generated method for an rpc: the repository's own naming function, checked against what the
+    generated classes define; falls back to the adapter's name"""
+    cands = []
+    try:
+        from betterproto.compile.naming import pythonize_method_name
+
+        cands.append(pythonize_method_name(proto_name))
+    except Exception:
+        pass
+    if handler is not None:
+        n = getattr(handler.func, "__name__", "")
+        if "__rpc_" in n:
+            cands.append(n.split("__rpc_", 1)[1])
+    cands += [proto_name, proto_name.lower()]
+    for c in cands:
+        if hasattr(stub, c) and hasattr(base, c):
+            return c
+    return cands[0] if cands else proto_name
+
+
 def describe_service(b: Build, s):
     """generated classes + method table for one ServiceInfo"""
     mod = b.module(s.package)
@@ -165,7 +186,7 @@ def describe_service(b: Build, s):
         route = f"/{pk}{s.name}/{md.name}"
         h = mapping.get(route)
         methods.append({"proto": md.name, "route": route, "handler": h,
-                        "pyname": h.func.__name__[len("__rpc_"):] if h is not None else None,
+                        "pyname": _method_name(stub, base, md.name, h),
                         "cs": md.client_streaming, "ss": md.server_streaming,
                         "req_mi": b.msgs[md.input_type], "rep_mi": b.msgs[md.output_type]})
     return base, stub, methods, mapping
